@@ -24,6 +24,7 @@ import decimal
 import enum
 import fractions
 import io
+import resource
 import struct
 from typing import List, Dict, Tuple, Set
 
@@ -215,6 +216,8 @@ def build(spec):
         return spec
     if isinstance(spec, list):
         raise ValueError("bare list in spec")
+    if "x" in spec:
+        return build_special(spec)
     if "f" in spec and len(spec) == 1:
         return spec2f(spec["f"])
     if "y" in spec:
@@ -233,8 +236,6 @@ def build(spec):
     if "e" in spec:
         cname, member = spec["e"].split(".")
         return getattr(ENUMS[cname], member)
-    if "x" in spec:
-        return build_special(spec)
     raise ValueError("bad spec %r" % (spec,))
 
 
@@ -724,8 +725,15 @@ def s_sets(max_size=6):
 
 
 def s_dicts(values, max_size=5):
-    return st.one_of(*[st.lists(st.tuples(k, values).map(list), unique_by=lambda kv: _keyid(kv[0]), max_size=max_size)
-                       for k in key_strategies()]).map(lambda l: {"d": l})
+    # keys first (small, filterable strategies), then one value per key: a unique_by filter on an element strategy
+    # that embeds the recursive `values` makes Hypothesis build that strategy's (exponentially large) repr
+    key_lists = st.one_of(*[st.lists(k, unique_by=_keyid, max_size=max_size) for k in key_strategies()])
+
+    @st.composite
+    def dicts(draw):
+        return {"d": [[k, draw(values)] for k in draw(key_lists)]}
+
+    return dicts()
 
 
 def _obj(name, **fields):
@@ -741,9 +749,14 @@ def s_containers_obj():
     return _obj("VpC13Containers",
                 l=st.one_of(st.none(), st.lists(s_ints(), max_size=5).map(lambda l: {"l": l})),
                 t=st.one_of(st.none(), st.tuples(s_ints(), s_strs()).map(lambda t: {"t": list(t)})),
-                d=st.one_of(st.none(), st.lists(st.tuples(s_strs(), s_ints()).map(list), unique_by=lambda kv: kv[0], max_size=4)
-                            .map(lambda l: {"d": l})),
+                d=st.one_of(st.none(), st.dictionaries(s_strs(), s_ints(), max_size=4).map(lambda d: {"d": [[k, v] for k, v in d.items()]})),
                 st=st.one_of(st.none(), st.lists(s_ints(), unique=True, max_size=5).map(lambda l: {"s": l})))
+
+
+@st.composite
+def _by_color(draw):
+    ks = draw(st.lists(s_enum("VpC13Color"), unique_by=lambda k: k["e"], max_size=3))
+    return {"d": [[k, draw(s_scalars_obj())] for k in ks]}
 
 
 def s_nested_obj():
@@ -751,8 +764,7 @@ def s_nested_obj():
                 child=st.one_of(st.none(), s_scalars_obj()),
                 kids=st.one_of(st.none(), st.lists(s_containers_obj(), max_size=3).map(lambda l: {"l": l})),
                 color=s_enum("VpC13Color"), mode=s_enum("VpC13Mode"),
-                by_color=st.one_of(st.none(), st.lists(st.tuples(s_enum("VpC13Color"), s_scalars_obj()).map(list),
-                                                       unique_by=lambda kv: kv[0]["e"], max_size=3).map(lambda l: {"d": l})))
+                by_color=st.one_of(st.none(), _by_color()))
 
 
 def s_objects(children):
@@ -788,13 +800,29 @@ DEEP_WRAPS = ["list", "tuple", "dictval", "objfield", "widefield", "treechild", 
 
 
 def value_specs(overflow=True, big=True, max_leaves=20, deep=True):
-    """strategy of specs of in-domain values (exported: C14 mutates encodings of these)"""
+    """strategy of specs of in-domain values (exported: C14 mutates encodings of these).
+    The recursive strategy is hidden behind an argument-less composite: its repr (which Hypothesis builds for
+    notes and events) is exponentially large."""
     base = st.recursive(s_leaves(overflow, big), _extend, max_leaves=max_leaves)
-    if not deep:
-        return base
-    deepv = st.tuples(base, st.lists(st.sampled_from(DEEP_WRAPS), min_size=2, max_size=40)).map(
-        lambda t: wrap(t[0], t[1], False))
-    return st.one_of(base, base, base, deepv)
+    wraps = st.lists(st.sampled_from(DEEP_WRAPS), min_size=2, max_size=40)
+
+    @st.composite
+    def value(draw):
+        v = draw(base)
+        if deep and draw(st.integers(0, 3)) == 0:
+            v = wrap(v, draw(wraps), False)
+        return v
+
+    return value()
+
+
+def hidden(strategy):
+    """the same strategy behind an argument-less composite (short repr)"""
+    @st.composite
+    def value(draw):
+        return draw(strategy)
+
+    return value()
 
 
 # out-of-domain atoms: (kind, expect, spec strategy, hashable)
@@ -945,7 +973,7 @@ def run_rt(spec, ctx):
         # scalars only, many per case: every width boundary of ints and of length prefixes, floats, strings
         strat = st.lists(s_leaves(overflow=False, big=True), min_size=1, max_size=3)
     else:
-        strat = st.lists(st.recursive(s_leaves(False, False), s_objects, max_leaves=12), min_size=1, max_size=2)
+        strat = st.lists(hidden(st.recursive(s_leaves(False, False), s_objects, max_leaves=12)), min_size=1, max_size=2)
 
     @ctx.given(spec["n"], strat, salt="%s/%s" % (part, spec.get("i", 0)))
     def test(specs):
@@ -1011,6 +1039,11 @@ def run_limit(spec, ctx):
 
 
 def run_shard(spec, ctx):
+    # safety net: a runaway allocation must end as MemoryError (harness error) in this process, not as an OOM kill
+    soft, hard = resource.getrlimit(resource.RLIMIT_AS)
+    cap = 8 * 2 ** 30
+    if soft == resource.RLIM_INFINITY or soft > cap:
+        resource.setrlimit(resource.RLIMIT_AS, (cap, hard))
     part = spec["part"]
     if part in ("rt", "rt-edge", "rt-obj"):
         run_rt(spec, ctx)
